@@ -86,6 +86,8 @@ def impl(case):
         except ValueError:
             return {"config_error": True}
         X, y, kw = K.data_kwargs(case)
+        if K.preload_flag(case):
+            K.decoy_load(m, X, y, kw)
         m.load_data(X, y, **kw)
         res = {"config_error": False, "eps": float(m.eps), "ratio": float(m.ratio), "index": K.canon_index(m),
                "gamma": [], "aligned": True}
@@ -105,6 +107,8 @@ def impl(case):
         m = red.ErrorRate() if case["fp"] is None else red.ErrorRate(costs={"fp": float(F(case["fp"])),
                                                                             "fn": float(F(case["fn"]))})
         X, y, kw = K.data_kwargs(case)
+        if K.preload_flag(case):
+            K.decoy_load(m, X, y, kw)
         m.load_data(X, y, **kw)
         res = {"gamma": [], "n_index": len(m.index)}
         for h in case["hs"]:
@@ -126,6 +130,8 @@ def impl_bgl(case):
     n = len(case["g"])
     X = pd.DataFrame({"id": list(range(n))})
     y = pd.Series([float(F(v)) for v in case["yq"]])
+    if K.preload_flag(case):
+        K.decoy_load(m, X, y, {"sensitive_features": [K.GNAMES[g] for g in case["g"]]})
     m.load_data(X, y, sensitive_features=[K.GNAMES[g] for g in case["g"]])
     res = {"index": [K.GNAMES.index(g) for g in m.index], "gamma": [], "loss_max": float(loss.max)}
     for h in case["hs"]:
